@@ -171,5 +171,5 @@ Inv == MachineOk(m) /\ CollectorsOk(m) /\ (m.phase # "gen" => ExtOk(m))
 
 Emit == m.phase = "done" /\ m.status \in {"done", "exc"} =>
           PrintT(ToJson([fam |-> fam, prog |-> <<m.prog[1]>>, q |-> m.q, qv |-> m.qv, ans |-> m.ans, status |-> m.status,
-                         ball |-> m.ball, out |-> m.out, unspec |-> m.unspec, nested |-> m.nested, condcut |-> m.condcut, ncl |-> Len(m.cl), steps |-> m.steps]))
+                         ball |-> m.ball, balts |-> m.balts, out |-> m.out, unspec |-> m.unspec, nested |-> m.nested, condcut |-> m.condcut, ncl |-> Len(m.cl), steps |-> m.steps]))
 =============================================================================
